@@ -54,12 +54,19 @@ type verifSrc struct {
 	off   int
 	fail  bool
 	err   error // the error a failing source ends with (default io.ErrUnexpectedEOF)
+	bad   int   // misbehaving source: 1 = returns a negative count once the data is used up, 2 = panics there
 	tag   string
 	calls int
 	eager bool // the final error comes together with the last bytes, as io.Reader allows
 }
 
 func (r *verifSrc) Read(p []byte) (int, error) {
+	if r.off >= len(r.data) && r.bad == 1 {
+		return -1, nil
+	}
+	if r.off >= len(r.data) && r.bad == 2 {
+		panic("source reader blew up")
+	}
 	if r.off >= len(r.data) {
 		if r.fail {
 			return 0, r.failure()
@@ -96,6 +103,9 @@ func (r *verifSrc) failure() error {
 // verifSrcErr: the error value a failing source ends with: io.ErrUnexpectedEOF, an error that wraps
 // io.EOF without being it (only the bare io.EOF means a clean end), or a fresh error.
 func verifSrcErr() error {
+	if symx.Param("plainSources", 0) == 1 {
+		return io.ErrUnexpectedEOF
+	}
 	switch symx.Concrete(symx.Int("srcError"), 0, 2) {
 	case 1:
 		return fmt.Errorf("stream aborted: %w", io.EOF)
@@ -268,7 +278,20 @@ func VerifH_BufferDifferential() {
 			if fail {
 				ferr = verifSrcErr()
 			}
-			r1 := &verifSrc{data: data, fail: fail, err: ferr, tag: "chunk", eager: eager}
+			bad := 0
+			if !fail && !eager && symx.Param("plainSources", 0) == 0 {
+				bad = symx.Concrete(symx.Int("srcMisbehaves"), 0, 2)
+			}
+			r1 := &verifSrc{data: data, fail: fail, err: ferr, tag: "chunk", eager: eager, bad: bad}
+			if bad != 0 {
+				// a source that breaks the io.Reader contract or panics: both buffers panic alike, and what
+				// they hold afterwards (the caller recovered) is compared like after any other step
+				r2 := &verifSrc{data: data, bad: bad}
+				p1 := symx.Panics(func() { _, _ = t.ReadFrom(r1) })
+				p2 := symx.Panics(func() { _, _ = s.ReadFrom(r2) })
+				symx.Assert(p1 && p2, "ReadFrom panics alike on a misbehaving source")
+				break
+			}
 			n1, e1 := t.ReadFrom(r1)
 			// the second reader replays the same fragmentation is unnecessary: ReadFrom's result must not depend on it
 			r2 := &verifSrc{data: data, fail: fail, err: ferr, eager: eager}
